@@ -156,3 +156,116 @@ def run(chk):
                     if not ok:
                         chk.violation('impl-vs-oracle', 'periodic face (%d -> %d, shift %s, area %s) has no reciprocal partner with opposite normal %s' % (i, j, s, fl(f.area), where), rp, key='periodic-pair')
         chk.traces += 1
+
+    # ---- large inputs of very uneven density (implementation-only relations; too large for the exact oracle)
+    run_recip(chk)
+
+
+def run_recip(chk):
+    binary, _ = cargo_build('ibig,rayon', False)
+    rec_f = os.path.join(chk.wdir(), 'recip.rec')
+    rc, fams, err = run_harness(binary, 'recip', chk.seed, chk.tier, rec_f)
+    if rc != 0:
+        chk.violation('harness', 'harness op recip failed: %s' % err[-300:], None)
+        return
+    for k, v in fams.items():
+        chk.families[k] = chk.families.get(k, 0) + v
+    npanic = 0
+    for r in read_records(rec_f):
+        chk.count()
+        rp = {'op': 'recip', 'ids': [r.id], 'family': r.family, 'how': './check C03 --replay <this file> re-runs harness op recip with the same seed and examines this record',
+              'record': r.line[:2000]}
+        if r.res[0] != 'OK':
+            npanic += 1
+            chk.panic_record(r, ' '.join(r.res)[:300], rp)
+            continue
+        inp = parse_input(r.inp)
+        tol = Tol(inp)
+        if tol.ill:
+            chk.extra_cov['skipped_ill_conditioned'] = chk.extra_cov.get('skipped_ill_conditioned', 0) + 1
+            continue
+        where = '(record %d, %s, %d generators)' % (r.id, r.family, inp.n)
+        w = [float(x) for x in inp.nw]
+        atol = float(tol.area) * 1000
+        ptol = float(tol.pos) * 10000
+        t = Tok(r.res)
+        t.expect('OK')
+        t.expect('NF')
+        nf = t.int()
+
+        def shift_of():
+            if t.next() == 'N':
+                return None
+            v = [hex_to_float(t.next()) for _ in range(3)]
+            return tuple(int(round(v[k] / w[k])) if w[k] else 0 for k in range(3))
+        table = {}
+        for _ in range(nf):
+            left = t.int()
+            right = t.optint()
+            s = shift_of()
+            area = hex_to_float(t.next())
+            cen = [hex_to_float(t.next()) for _ in range(3)]
+            if right is not None:
+                table.setdefault((left, right, s), []).append((area, cen))
+        bad = None
+        for (i, j, s), fs in table.items():
+            for (area, cen) in fs:
+                if not (area == area) or abs(area) <= atol:
+                    continue
+                ms = None if s is None else tuple(-x for x in s)
+                if ms == (0, 0, 0):
+                    ms = None
+                partners = table.get((j, i, ms), [])
+                sh = [0.0] * 3 if s is None else [s[k] * w[k] for k in range(3)]
+                ok = any(abs(pa - area) <= atol and all(abs(pc[k] + sh[k] - cen[k]) <= ptol for k in range(3)) for (pa, pc) in partners)
+                chk.nontriv((r.id, min(i, j), max(i, j)))
+                if not ok and bad is None:
+                    bad = 'cell %d has a face towards %d (shift %s) of area %.6g but cell %d sees %s %s' % (i, j, s, area, j, [round(p[0], 9) for p in partners], where)
+        if bad:
+            chk.violation('impl-vs-oracle', bad, rp, key='reciprocal')
+            continue
+        # tiling (C02's relation, kept here as a cheap cross-check of the same record)
+        t.expect('NC')
+        nc = t.int()
+        vols = [hex_to_float(t.next()) for _ in range(nc)]
+        # stored faces: unshifted interior faces once, shifted ones in reciprocal pairs with opposite normals
+        t.expect('SF')
+        ns = t.int()
+        seen = {}
+        per = {}
+        for _ in range(ns):
+            left = t.int()
+            right = t.optint()
+            s = shift_of()
+            area = hex_to_float(t.next())
+            nrm = [hex_to_float(t.next()) for _ in range(3)]
+            _cen = [t.next() for _ in range(3)]
+            if right is None:
+                continue
+            if s is None:
+                key = (min(left, right), max(left, right))
+                seen[key] = seen.get(key, 0) + 1
+            else:
+                per.setdefault((left, right, s), []).append((area, nrm))
+        dup = [k for k, c in seen.items() if c != 1]
+        if dup:
+            chk.violation('impl-vs-oracle', 'unshifted face between %d and %d stored %d times %s' % (dup[0][0], dup[0][1], seen[dup[0]], where), rp, key='once')
+            continue
+        for (i, j, s), fs in per.items():
+            for (area, nrm) in fs:
+                if abs(area) <= atol:
+                    continue
+                ms = tuple(-x for x in s)
+                ok = any(abs(pa - area) <= atol and all(abs(pn[k] + nrm[k]) <= 1e-9 for k in range(3)) for (pa, pn) in per.get((j, i, ms), []))
+                if not ok and bad is None:
+                    bad = 'stored periodic face (%d -> %d, shift %s, area %.6g) has no reciprocal partner with opposite normal %s' % (i, j, s, area, where)
+        # every non-negligible interior face of the integrator must be stored
+        for (i, j, s), fs in table.items():
+            if s is None and any(abs(a) > atol for a, _ in fs):
+                if seen.get((min(i, j), max(i, j)), 0) != 1 and bad is None:
+                    bad = 'the face between cells %d and %d (area %.6g) is stored %d times %s' % (i, j, fs[0][0], seen.get((min(i, j), max(i, j)), 0), where)
+        if bad:
+            chk.violation('impl-vs-oracle', bad, rp, key='periodic-pair')
+            continue
+        chk.traces += 1
+    chk.extra_cov['recip_records_with_panic'] = npanic
